@@ -20,6 +20,8 @@ class Protocol(Component):
         self.__sock = sock
         self.__receive_event_firewall = kwargs.get('receive_event_firewall', None)
         self.__send_event_firewall = kwargs.get('send_event_firewall', None)
+        # calls in flight on this connection (ids are only unique per connection)
+        self.__events = {}
 
     def add_buffer(self, data=''):
         if data:
